@@ -10,12 +10,14 @@ driver (property C02):
 
   `srv <script> <chunk,chunk,…|-> [<script> <chunks> …]`   connections with a scripted request processor
       script = two letters per frame, `r|n|x` (reply / none / raised) then `c|s` (continue / stop), `-` = empty
-      -> `acted=<n> replies=<i,i,…|-> closed=<n> end=<clean|abort:<pending>|stopped>` joined by ` | `
+      -> `acted=<n> replies=<i,i,…|-> closed=<n> end=<clean|abort:<pending>|stopped> prog=<a,a,…|->` joined by ` | `
+         (prog = frames acted upon each time the connection comes back for more input, one entry per block;
+          `srvq` = the same without `prog`)
 -/
 namespace Cpppo.Driver.Framing
 open Cpppo.Wire Cpppo.Framing
 
-def commands : List String := ["frm", "srv"]
+def commands : List String := ["frm", "srv", "srvq"]
 
 def showFrame (f : RawFrame) (sent : Nat) : String :=
   let pl := if f.length = 0 then "~" else hexOfBytes f.payload
@@ -58,18 +60,20 @@ def scriptClose (s : Nat × Nat) : Nat × Nat := (s.1, s.2 + 1)
 def showNats (l : List Nat) : String :=
   if l.isEmpty then "-" else ",".intercalate (l.map toString)
 
-def serveOne (script cs : String) : Option String := do
+def serveOne (prog : Bool) (script cs : String) : Option String := do
   let script ← if script = "-" then some [] else parseScript script.toList
   let cs ← parseChunks cs
   let (s, replies, e) := serveChunks (scriptStep script) scriptClose (0, 0) cs
-  pure s!"acted={s.1} replies={showNats replies} closed={s.2} end={showEnd e}"
+  let tr := (Conn.trace (R := Nat) (scriptStep script) (Conn.init (0, 0)) cs).map fun c => c.st.1
+  let p := if prog then s!" prog={showNats tr}" else ""
+  pure s!"acted={s.1} replies={showNats replies} closed={s.2} end={showEnd e}{p}"
 
 /-- one or more connections, each `<script> <chunks>`; answers joined by ` | ` -/
-def serveAll : List String → Option String
-  | [script, cs] => serveOne script cs
+def serveAll (prog : Bool) : List String → Option String
+  | [script, cs] => serveOne prog script cs
   | script :: cs :: rest => do
-    let a ← serveOne script cs
-    let b ← serveAll rest
+    let a ← serveOne prog script cs
+    let b ← serveAll prog rest
     pure (a ++ " | " ++ b)
   | _ => none
 
@@ -81,7 +85,8 @@ def handle : List String → Option String
     let fs := (r.1.zip sents).map fun (f, n) => showFrame f n
     let e := if r.2.isEmpty then Ending.clean else Ending.aborted r.2.length
     pure ((if fs.isEmpty then "-" else ";".intercalate fs) ++ " " ++ showEnd e)
-  | "srv" :: rest => serveAll rest
+  | "srv" :: rest => serveAll true rest
+  | "srvq" :: rest => serveAll false rest
   | _ => none
 
 end Cpppo.Driver.Framing
